@@ -102,7 +102,7 @@ def run(tier, seed, replay=None):
                           "mid_newlines": rnd.choice([0, 1]), "status_case": 0, "frags": rnd.choice([[], [1, 1, 1048576], [4096], [8191, 1]]), "pause_us": 50, "offset": 0, "read_max": 4096})
         # ... with RDBs large enough, and sent in small enough pieces, for the two dumpers to be copying at the same moment many times over
         # (odd id: two file workers)
-        for j in range(4 if thorough else 1):
+        for j in range(8 if thorough else 3):   # (a race: several tries; each takes about half a second)
             cid += 1 + (cid % 2)   # -> odd
             cases.append({"id": cid, "mode": "dump-main", "n": 96 * 1024 * 1024 + j, "stream_len": 0, "pre_newlines": 0, "mid_newlines": 0, "status_case": 0,
                           "frags": [], "pause_us": 20, "offset": 0, "read_max": 4096})
